@@ -19,6 +19,8 @@ props.prop(
             'original dataset; completion of None / Ellipsis / single-entry / short views by IndexedData',
     not_decided='that the view arithmetic is right (combine_slices, slice reversal, pixel broadcast shortcut): numerical',
     assumptions=['calls are dependence-preserving; locals() depends on every local'])
+props.also('C04',
+           'that IndexedData completes Ellipsis / short / single-entry views and turns a boolean-mask view into index arrays before splicing it into the full-dimensional view; element order of the flatten / reshape pairs around views')
 
 FAMILY_NAMES = {'to_mask', 'get_data', 'get_mask', 'compute', '__getitem__', '_calculate', 'evaluate', 'get_mask_with_key_joins',
                 'to_array'}
